@@ -184,7 +184,8 @@ theorem binomAlt_exact_of_relAcc (lg : ℝ → ℝ) (ε : ℝ) (n k : ℕ) (hε 
   binomAlt_exact_of_acc lg _ n k hk (logGammaAcc_of_rel lg ε n hε hacc) hfit hC
 
 /-- The same for the model of the Rust `ln_gamma` (the Lanczos code path of `Model/Special.lean`, here in exact real
-arithmetic): any proved or assumed accuracy of it transfers. -/
+arithmetic): any proved or assumed accuracy of it transfers.  CONDITIONAL: the hypothesis `LogGammaAcc lnGammaFn δ n` is
+not established anywhere (C09's oracle measures it at `f64`; no theorem instantiates it for `lnGammaFn`). -/
 theorem binomCoeffAlt_exact_of_acc (δ : ℝ) (n k : ℕ) (hk : k ≤ n)
     (hacc : LogGammaAcc (Special.lnGammaFn : ℝ → ℝ) δ n) (hfit : n.choose k < 2 ^ 64)
     (hC : (n.choose k : ℝ) * (Real.exp (3 * δ) - 1) < 1 / 2) :
@@ -227,6 +228,7 @@ theorem binomAlt_exact_rel_1e12 (lg : ℝ → ℝ) (n k : ℕ) (hk : k ≤ n) (h
         mul_le_mul_of_nonneg_left this (by norm_num)
     _ = 1 / 10 ^ 9 := by norm_num
 
+/-- CONDITIONAL on the unproved accuracy hypothesis, like `binomCoeffAlt_exact_of_acc`. -/
 theorem binomCoeffAlt_exact_1e9 (n k : ℕ) (hk : k ≤ n)
     (hacc : LogGammaAcc (Special.lnGammaFn : ℝ → ℝ) (1 / 10 ^ 9) n) (hC : n.choose k ≤ 160000000) :
     binomCoeffAlt ℝ n k = some (n.choose k) :=
